@@ -181,7 +181,8 @@ fn module_of(script: &Script, mem: &[u8]) -> Vec<u8> {
     // (the dump of the observation windows is part of the script itself, see `with_epilogue`)
     body.push(Instr::I32Const(0));
     m.funcs.push(Func { ty: entry_ty, locals: vec![VT::I64, VT::I32], body });
-    m.memory = Some((1, Some(1)));
+    let pages = (mem.len() / MEM) as u32;
+    m.memory = Some((pages, Some(pages)));
     // data segments: only the non-zero parts of the initial memory
     for (off, len) in [(KEYS, 0x100u32), (SRC, 0x100), (PK, 0x80), (CALLARGS, 0x40), (SCRATCH, 0x100), (TAIL, 16)] {
         m.data.push((off, mem[off as usize..(off + len) as usize].to_vec()));
@@ -210,10 +211,16 @@ const DUMPS: [(u32, u32); 2] = [(SCRATCH, 0x100), (TAIL, 16)];
 
 /// Append the epilogue to a script's function body: `rv_len` is the length of the return
 /// value after the script proper (known from the model).
-fn with_epilogue(script: &Script, rv_len: u32) -> Script {
+fn with_epilogue(script: &Script, rv_len: u32, pages: usize) -> Script {
     let mut s = script.clone();
     let mut off = rv_len;
-    for (start, len) in DUMPS {
+    let mut dumps = DUMPS.to_vec();
+    if pages == 2 {
+        // the first and the last 16 bytes of the second page
+        dumps.push((0x10000, 16));
+        dumps.push((0x1FFF0, 16));
+    }
+    for (start, len) in dumps {
         s.push(Call { f: F::WriteOutput, args: vec![Arg::C(start as u64), Arg::C(len as u64), Arg::C(off as u64)] });
         off += len;
     }
@@ -302,7 +309,7 @@ fn run_real(wasm: &[u8], c: &Ctx, budget: u64, answers: &[Answer]) -> Result<Rea
     };
     let name = OwnedReceiveName::new_unchecked("c.run".into());
     // the contract's memory is one page: at most 64 KiB of a pooled block get dirty
-    mc_core::set_dirty_limit(MEM);
+    mc_core::set_dirty_limit(2 * MEM);
     let result = {
         let inner = mutable.get_inner(&mut loader);
         let state = InstanceState::new(Loader::new(&store[..]), inner);
@@ -457,7 +464,7 @@ fn expect(script: &Script, answers: &[Answer], c: &Ctx, mem0: &[u8]) -> Expect {
     // pass 1: the script proper, to learn the return value length; pass 2 with the epilogue
     let (m1, _, _, completed1, _) = model_run(script, answers, c, mem0);
     let rv_len = if completed1 { m1.rv.len() as u32 } else { 0 };
-    let full = with_epilogue(script, rv_len);
+    let full = with_epilogue(script, rv_len, mem0.len() / MEM);
     let (m, sections, mut allowed, completed, per) = model_run(&full, answers, c, mem0);
     if completed {
         allowed.push(Outcome::Success { rv: m.rv.clone(), logs: m.logs.clone(), state: flat(&m) });
@@ -470,11 +477,21 @@ fn check_script(report: &Report, script: &Script, c: &Ctx, mem0: &[u8], energy_p
 fn check_script_r(report: &Report, script: &Script, answers: &[Answer], c: &Ctx, mem0: &[u8], energy_probe: bool) {
     report.eval(1);
     let w = || {
-        if answers.is_empty() {
-            json!({"params": c.params.name, "script": script_json(script)})
-        } else {
-            json!({"params": c.params.name, "script": script_json(script), "answers": answers.iter().map(|a| format!("{:?} state_updated={}", a.resp, a.state_updated)).collect::<Vec<_>>()})
+        let mut j = json!({"params": c.params.name, "script": script_json(script)});
+        if !answers.is_empty() {
+            j["answers"] = json!(answers.iter().map(|a| format!("{:?} state_updated={}", a.resp, a.state_updated).chars().take(200).collect::<String>()).collect::<Vec<_>>());
         }
+        if c.parameter.len() != 5 {
+            j["parameter_len"] = json!(c.parameter.len());
+        }
+        if mem0.len() != MEM {
+            j["memory_pages"] = json!(mem0.len() / MEM);
+        }
+        if mem0[BIG as usize..TAIL as usize].iter().any(|b| *b != 0) {
+            use sha2::Digest;
+            j["payload_at_0x3000"] = json!({"first_bytes": hex::encode(&mem0[BIG as usize..BIG as usize + 24]), "sha256_of_region": hex::encode(&sha2::Sha256::digest(&mem0[BIG as usize..TAIL as usize])[..8])});
+        }
+        j
     };
     let e = expect(script, answers, c, mem0);
     let wasm = module_of(&e.full, mem0);
@@ -762,6 +779,29 @@ fn arg_lists(f: F, full: bool) -> Vec<Vec<Arg>> {
     product(&lists)
 }
 
+/// Argument lists for a contract with two pages of memory: the bounds are at 128 KiB now, the
+/// old bound (64 KiB) is an ordinary address.
+fn arg_lists_two_pages(f: F) -> Vec<Vec<Arg>> {
+    let c = |v: &[u64]| v.iter().map(|x| Arg::C(*x)).collect::<Vec<_>>();
+    let lists: Vec<Vec<Arg>> = roles(f)
+        .iter()
+        .map(|r| match r {
+            Role::Ptr => c(&[SCRATCH as u64, 0xFFFF, 0x10000, 0x1FFF8, 0x1FFFF, 0x20000, 0xFFFF_FFFF]),
+            Role::KeyPtr => c(&[KEYS as u64, 0xFFFF, 0x1FFFF, 0x20000]),
+            Role::Len => c(&[0, 1, 8, 40, 0x10000, 0x10001, 0x1FFFF, 0x20000]),
+            Role::KeyLen => c(&[1, 2, 0x10000, 0x1FFFF]),
+            Role::Off => c(&[0, 1, 5]),
+            Role::Entry => vec![Arg::Res(0), Arg::Res(1)],
+            Role::Iter => vec![Arg::Res(2)],
+            Role::ParamIdx => c(&[0]),
+            Role::Tag => c(&[0, 1, 2]),
+            Role::Size => c(&[3, 0x1FFFF]),
+            Role::Fixed(v) => c(&[*v]),
+        })
+        .collect();
+    product(&lists)
+}
+
 fn run_engine(cli: &Cli, report: &Report) {
     let quick = cli.tier == Tier::Quick;
     let mem0 = initial_memory(cli.seed);
@@ -843,6 +883,48 @@ fn run_engine(cli: &Cli, report: &Report) {
             special.push((p, s));
         }
     }
+    // contracts with two pages of memory: the same functions at the new bounds
+    let mut mem2 = mem0.clone();
+    mem2.resize(2 * MEM, 0);
+    let mut two_page: Vec<Script> = vec![];
+    for f in ALL {
+        if roles(f).iter().all(|r| !matches!(r, Role::Ptr | Role::KeyPtr)) {
+            continue;
+        }
+        for args in arg_lists_two_pages(f) {
+            let mut s = prefix();
+            s.push(Call { f, args });
+            two_page.push(s);
+        }
+    }
+    report.set_extra("two_page_memory_cases", json!(two_page.len()));
+    let p7c = ctx(P7);
+    two_page.par_iter().enumerate().for_each(|(i, s)| check_script(report, s, &p7c, &mem2, i % 16 == 0));
+    // all parameter sizes that matter: empty, one byte, the limits of the parameter sets
+    let mut param_cases: Vec<(Ctx, Script)> = vec![];
+    for p in [P4, P7] {
+        for plen in [0usize, 1, 1024, 65535] {
+            let mut cx = ctx(p);
+            cx.parameter = (0..plen).map(|i| (i * 13 + 5) as u8).collect();
+            param_cases.push((cx.clone(), vec![c(F::GetParameterSize, &[0])]));
+            let pl = plen as u64;
+            let mut lens = vec![0, 1, pl.saturating_sub(1), pl, pl + 1, 0xFFFF, 0x10000];
+            lens.sort();
+            lens.dedup();
+            let mut offs = vec![0, 1, pl.saturating_sub(1), pl, pl + 1];
+            offs.sort();
+            offs.dedup();
+            for ptr in [0u64, 1, SCRATCH as u64] {
+                for len in &lens {
+                    for off in &offs {
+                        param_cases.push((cx.clone(), vec![c(F::GetParameterSection, &[0, ptr, *len, *off])]));
+                    }
+                }
+            }
+        }
+    }
+    report.set_extra("parameter_size_cases", json!(param_cases.len()));
+    param_cases.par_iter().for_each(|(cx, s)| check_script(report, s, cx, &mem0, true));
     // `invoke` of another contract: parameter length around the limit of the parameter set
     // (1024 before P5, 65535 from P5), entrypoint name lengths around 100 and characters
     // outside the name alphabet, payload one byte short / exact / one byte long
